@@ -3,6 +3,7 @@
    kinds:
      c15   <variant> <syms> <rands> <user> <pass> <nuser> <npass> <salt> <iter> <tls> <keys>
      c15r  <variant> <syms1> <syms2> <rands> <user> <pass> <nuser> <npass> <salt> <iter> <tls> <keys>
+     auth14s <lad> <replies/replies/...> <mech> <mech args...> <scenario>   several exchanges on one Auth value
      auth  <lad 0|1> <replies> <mech> <mech args...>       (auth16: the same plus the records of a NOOP after Auth)
      hash  <sha1|sha256|md5> <msg>          hmac <sha1|sha256|md5> <key> <msg>
      pbkdf2 <sha1|sha256> <pass> <salt> <iter> <keylen>
@@ -91,9 +92,9 @@ let run (toks : string list) : string =
       let tab = precis_tab user pass nuser npass in
       let ((c1, s1), (c2, s2)) = M.c15_retry v256 M.gen_cfg (M.table_oracle tab) id (params keys salt iter) (byteslist_of rands) (syms_of syms1) (syms_of syms2) in
       hex_of_bytes c1 ^ " " ^ hexlist_of s1 ^ " " ^ hex_of_bytes c2 ^ " " ^ hexlist_of s2
-  | ("auth" | "auth16" | "auth14" as kind) :: lad :: replies :: mech :: args0 ->
+  | ("auth" | "auth16" | "auth14" | "auth14s" as kind) :: lad :: replies :: mech :: args0 ->
       (* auth16 cases carry the harness scenario as a last argument the model does not use *)
-      let args = if kind = "auth16" || kind = "auth14" then List.rev (List.tl (List.rev args0)) else args0 in
+      let args = if kind = "auth16" || kind = "auth14" || kind = "auth14s" then List.rev (List.tl (List.rev args0)) else args0 in
       let si name tls = { M.si_name = bytes_of_hex name; M.si_tls = bool_of tls } in
       let d = match mech, args with
         | "plain", [ident; user; pass; host; allow; sname; tls] ->
@@ -108,6 +109,11 @@ let run (toks : string list) : string =
             let (v256, id) = scram_id variant user pass tls in
             M.MScram (v256, id, precis_tab user pass nuser npass, byteslist_of rands)
         | _ -> failwith "bad mech" in
+      if kind = "auth14s" then
+        (* several exchanges on the same Auth value: reply scripts separated by '/' *)
+        String.concat " | " (List.map (fun o -> Printf.sprintf "%s S:%s" (hex_of_bytes o.M.ro_class) (hexlist_of o.M.ro_sent))
+          (M.run_auth_seq M.gen_cfg d (bool_of lad) (List.map replies_of (split_on '/' replies))))
+      else
       let o = M.run_auth M.gen_cfg d (bool_of lad) (replies_of replies) in
       let base = Printf.sprintf "%s %s %s S:%s L:%s" (hex_of_bytes o.M.ro_class) (b o.M.ro_active) (b o.M.ro_closed)
         (hexlist_of o.M.ro_sent) (hexlist_of o.M.ro_log) in
